@@ -205,7 +205,14 @@ pub fn sched_strategy(min_log_d: u32, max_log_d: u32) -> BoxedStrategy<Sched> {
             let mut s = Sched { log_n, layers, log_rem, log_blowup, log_rmd1: 0 };
             // fit into the size window: drop layers, then remainder size, then blowup
             while s.log_domain() > max_log_d {
-                if s.layers > 0 {
+                // shrink the largest contributor first (keeps layers / remainder / blowup balanced)
+                let lay = s.layers as u32 * s.log_n as u32;
+                let (rem, blow) = (s.log_rem as u32, s.log_blowup as u32 - 1);
+                if rem >= lay && rem >= blow && s.log_rem > 0 {
+                    s.log_rem -= 1;
+                } else if blow >= lay && s.log_blowup > 1 {
+                    s.log_blowup -= 1;
+                } else if s.layers > 0 {
                     s.layers -= 1;
                 } else if s.log_rem > 0 {
                     s.log_rem -= 1;
